@@ -52,63 +52,32 @@ theorem open_close_tokens_against_trader (size pmin pmax : Nat) (hp : pmin ≤ p
     calc size ≤ ceilDiv size pmin * pmin := this
       _ ≤ ceilDiv size pmin * pmax := Nat.mul_le_mul_left _ hp
 
-/-- the pool delta of closing a just-opened position is the exact reverse of the opening's. -/
+/-- **the pool delta of closing a just-opened position is the exact reverse of the opening's**, and
+it always exists: the amounts the closing starts from fit the word because the opening's did (no
+`none` branch; audit item). -/
 theorem close_delta_is_reverse {W ol os : Nat} {d : Int} {D : PoolDelta}
     (h : PoolDelta.tryNew W ol os d 0 1 1 = some D) :
-    PoolDelta.tryNew W D.nextL D.nextS (-d) 0 1 1 = some D.rev ∨ PoolDelta.tryNew W D.nextL D.nextS (-d) 0 1 1 = none := by
-  unfold PoolDelta.tryNew at h ⊢
-  unfold checkedMul toU at h ⊢
-  simp only [Nat.mul_one] at h ⊢
-  split at h
-  · cases h
-  · rename_i cl hcl
-    split at hcl
-    · cases hcl
-      split at h
-      · cases h
-      · rename_i cs hcs
-        split at hcs
-        · cases hcs
-          split at h
-          · cases h
-          · rename_i nl hnl
-            split at h
-            · cases h
-            · rename_i ns hns
-              cases h
-              have e1 := C01.checkedAddWithSigned_spec hnl
-              have e2 := C01.checkedAddWithSigned_spec hns
-              simp only [PoolDelta.rev]
-              by_cases hf : nl < 2 ^ W
-              · simp only [hf, if_true]
-                by_cases hg : ns < 2 ^ W
-                · simp only [hg, if_true]
-                  cases hx : checkedAddWithSigned W nl (-d) with
-                  | none => right; rfl
-                  | some nl' =>
-                    have e3 := C01.checkedAddWithSigned_spec hx
-                    cases hy : checkedAddWithSigned W ns 0 with
-                    | none => right; rfl
-                    | some ns' =>
-                      have e4 := C01.checkedAddWithSigned_spec hy
-                      left
-                      have : nl' = ol := by omega
-                      have : ns' = os := by omega
-                      subst_vars
-                      rfl
-                · right; simp [hg]
-              · right; simp [hf]
-        · cases hcs
-    · cases hcl
+    PoolDelta.tryNew W D.nextL D.nextS (-d) 0 1 1 = some D.rev :=
+  Lem.tryNew_rev h
 
-/-- **round-trip impact ≤ one unit of value** (before caps, real pools): the impact of opening
-`d` on the open-interest balance and the impact of the exact reverse change sum to at most 1
-(≤ 0 when the change crosses the balance point). -/
-theorem open_close_impact_le_one {W U : Nat} {p : ImpactParams} {ol os : Nat} {d : Int} {D : PoolDelta} {x y : Int}
-    {b₁ b₂ : BalanceChange} (_h : PoolDelta.tryNew W ol os d 0 1 1 = some D)
+/-- **round-trip impact ≤ one unit of value** (before caps, real pools), for ANY pool delta `D`:
+the impact of `D` and the impact of its exact reverse sum to at most 1 (≤ 0 when the change
+crosses the balance point). With `close_delta_is_reverse`, `D.rev` IS the closing's delta. -/
+theorem open_close_impact_le_one {W U : Nat} {p : ImpactParams} {D : PoolDelta} {x y : Int}
+    {b₁ b₂ : BalanceChange}
     (hx : D.priceImpact W U p = some (x, b₁)) (hy : D.rev.priceImpact W U p = some (y, b₂)) :
     x + y ≤ 1 ∧ (D.isSameSide = false → x + y ≤ 0) :=
   C03.roundtrip_le_one hx hy
+
+/-- the two together, on the computed deltas: opening `d` on pools `(ol, os)` and closing `−d` on
+the resulting pools. -/
+theorem open_close_impact_le_one_computed {W U : Nat} {p : ImpactParams} {ol os : Nat} {d : Int} {D D' : PoolDelta} {x y : Int}
+    {b₁ b₂ : BalanceChange} (h : PoolDelta.tryNew W ol os d 0 1 1 = some D)
+    (h' : PoolDelta.tryNew W D.nextL D.nextS (-d) 0 1 1 = some D')
+    (hx : D.priceImpact W U p = some (x, b₁)) (hy : D'.priceImpact W U p = some (y, b₂)) : x + y ≤ 1 := by
+  rw [close_delta_is_reverse h] at h'
+  cases h'
+  exact (C03.roundtrip_le_one hx hy).1
 
 /-- the positive cap never raises the impact, and leaves a negative impact alone. -/
 theorem cap_positive_le {W U : Nat} {m : Market} {c : PerpCfg} {index : Price} {sd i r : Int}
@@ -202,14 +171,17 @@ of the collateral processor: output + secondary output + claimable amounts, plus
 charged for a negative pnl / negative capped impact (rounded up at the min price), are at most the
 position's collateral plus the tokens credited for a positive pnl / positive impact (rounded down
 at the max price) — or the trader receives nothing (insolvent close). Fees and funding only
-lower it; the price impact diff is moved to the claimable account, not lost. -/
+lower it; the price impact diff is moved to the claimable account, not lost. The two prices the
+token amounts are divided by are non-zero (a successful decrease validated them), so
+`creditTokens` / `chargeTokens` never hit their `x / 0 = 0` default here (audit item). -/
 theorem close_receipt {W U : Nat} {m m' : Market} {c : PerpCfg} {pr : Prices} {p p' : Pos} {sd0 wd : Nat}
     {fl : DecreaseFlags} {r : DecreaseReport} (h : decrease W U m c pr p sd0 wd fl = .ok (m', p', r))
     (hs : p.isLong = p.collLong) :
-    r.output + r.secondary + r.userOut + r.userSec + chargeTokens r.pnl r.impactValue (pr.collateral p.collLong).min
+    ((pr.collateral p.collLong).min ≠ 0 ∧ (pr.collateral p.collLong).max ≠ 0) ∧
+    (r.output + r.secondary + r.userOut + r.userSec + chargeTokens r.pnl r.impactValue (pr.collateral p.collLong).min
         ≤ p.collateral + creditTokens r.pnl r.impactValue (pr.collateral p.collLong).max ∨
-    r.output + r.secondary + r.userOut + r.userSec = 0 :=
-  Lem.decrease_receipt h hs
+     r.output + r.secondary + r.userOut + r.userSec = 0) :=
+  ⟨Lem.decrease_prices_nonzero h, Lem.decrease_receipt h hs⟩
 
 /-- **open + immediate close is not profitable** (fresh position, same prices, pnl token =
 collateral token, positive cap factor ≤ negative cap factor): everything returned is at most the
